@@ -46,6 +46,10 @@ def run(ctx):
                     ctx.counterexample('%s(%r, %s) returned %r: trailing separator expected=%r' % (where, pattern, corr.flag_names(fv), r, want_sep),
                                        {'pattern': pattern, 'result': r, 'tree': T.spec})
                     return
+            if fv & Gm.MARK and isdir and not r.endswith('/'):
+                ctx.counterexample('%s(%r, %s) returned the directory %r without the separator MARK asks for' % (where, pattern, corr.flag_names(fv), r),
+                                   {'pattern': pattern, 'result': r, 'tree': T.spec})
+                return
             if fv & Gm.NODIR and isdir:
                 ctx.counterexample('%s(%r, %s) returned the directory %r under NODIR' % (where, pattern, corr.flag_names(fv), r), {'pattern': pattern, 'result': r, 'tree': T.spec})
                 return
@@ -84,7 +88,7 @@ def run(ctx):
         extra = [('decoy', 'd', None), ('decoy/sub', 'd', None), ('decoy/sub/g.txt', 'f', None), ('decoy/top.txt', 'f', None)]
         with trees.Tree(spec) as T, trees.Tree(extra) as D:
             cyc = globcommon.has_dir_cycle(T.root)
-            pats = ['*', '**', '*/*', 'dang', 'sub/*', '{dang,f}', 'missing|dang|sub', './*', '../' + os.path.basename(T.root) + '/*', '*//*', 'real/', '**/', '!*a*', '.*',
+            pats = ['.', '..', './', '.|..', '{.,..}', 'real/..', './.', '*', '**', '*/*', 'dang', 'sub/*', '{dang,f}', 'missing|dang|sub', './*', '../' + os.path.basename(T.root) + '/*', '*//*', 'real/', '**/', '!*a*', '.*',
                     ['real/*', 'sub/*'], [os.path.join(T.root, '*'), 'sub/*'], [os.path.join(T.root, 'real', '*.txt'), 'top.txt', '*'], os.path.join(T.root, '**')]
             # patterns written from the tree: literal multi-segment paths (files and directories), a wildcard directory
             # followed by a literal name, and `<link to a directory>/../*` (the parent of the link's target)
